@@ -63,7 +63,7 @@ def main():
     for name, fn in (('SEEDED', seeded_table), ('FINDINGS', findings_table), ('STATUS', status_table)):
         b, e = f'<!-- {name}-TABLE-BEGIN -->', f'<!-- {name}-TABLE-END -->'
         if b in s:
-            s = re.sub(re.escape(b) + '.*?' + re.escape(e), b + '\n' + fn() + '\n' + e, s, flags=re.S)
+            s = re.sub(re.escape(b) + '.*?' + re.escape(e), lambda _m, b=b, e=e, fn=fn: b + '\n' + fn() + '\n' + e, s, flags=re.S)
     p.write_text(s)
 
 
